@@ -8,12 +8,12 @@ KIND = {n: i for i, n in enumerate(
     ["T_EOF", "ID", "NV_ID", "INT", "PAREN_CLOSE", "PAREN_OPEN", "ARGSEP", "PROGSEP", "LABELDEC", "ASSIGN", "NEQ_ZERO", "EQ", "DO",
      "LOOP", "WHILE", "GOTO", "IF", "THEN", "STOP", "END", "PROGRAM", "IN", "OUT", "INCLUDE", "FNAME", "DEFINE", "AS", "PRIORITY",
      "END_DEFINE", "PROG_TEMP", "VALUE_TEMP", "ID_TEMP", "INT_TEMP", "ARGS_TEMP", "INSERTION", "TEMP_VAL", "RUN", "WITH", "UNKNOWN"])}
-ERR = {"MAIN_FILE_NOT_FOUND": 0, "EXPECTED_FILENAME": 1, "FILE_NOT_FOUND": 2, "RECURSIVE_INCLUDE": 3}
+ERR = {"MAIN_FILE_NOT_FOUND": 0, "EXPECTED_FILENAME": 1, "FILE_NOT_FOUND": 2, "RECURSIVE_INCLUDE": 3, "TOO_MANY_TOKENS": 11}
 HI, CT = 0xE9, 0x01
 
 
 def to_bytes(chars):
-    return bytes((HI if c == "HI" else CT if c == "CT" else ord(c)) for c in chars)
+    return bytes((HI if c == "HI" else CT if c == "CT" else 0 if c == "NUL" else ord(c)) for c in chars)
 
 
 def keyword_fragments():
@@ -37,6 +37,8 @@ def keyword_fragments():
     out = []
     for f in sorted(frags):
         out.append(["HI" if c == "é" else c for c in f])
+    # the zero byte is an unknown character like any other (it does not end the file)
+    out += [["NUL"], ["a", "NUL"], ["NUL", "1"], ["NUL", "NUL"], ["i", "n", "NUL", "c", "l", "u", "d", "e"]]
     return out
 
 
